@@ -48,13 +48,13 @@ type PGSpec struct {
 }
 
 type HSpec struct {
-	Version  string
-	SO, GO   int
-	HDTags   []TagV
-	Refs     []RefSpec
-	RGs      []RGSpec
-	Progs    []PGSpec
-	Comments []string
+	Version     string
+	SO, GO      int
+	HDTags      []TagV
+	Refs        []RefSpec
+	RGs         []RGSpec
+	Progs       []PGSpec
+	Comments    []string
 	LongComment int // if >0: one more comment line of this many bytes (lines longer than 64 KiB)
 	Via         int // construction route: 0 Add* calls; 1 references handed to NewHeader; 2 parsed from its own text; 3 Clone; 4 decoded from its own binary form
 }
@@ -271,6 +271,9 @@ func HSpecGen(minRefs, maxRefs int) *rapid.Generator[HSpec] {
 			g := RGSpec{ID: id}
 			g.CN, g.DS, g.LB, g.PG, g.PL = optVal(t, "cn"), optVal(t, "ds"), optVal(t, "lb"), optVal(t, "pg"), optVal(t, "pl")
 			g.PU, g.SM, g.FO, g.KS = optVal(t, "pu"), optVal(t, "sm"), optVal(t, "fo"), optVal(t, "ks")
+			if g.FO != "" && rapid.IntRange(0, 3).Draw(t, "fostar") == 0 {
+				g.FO = "*" // the specification's spelling of "no flow order given"
+			}
 			if rapid.Bool().Draw(t, "date?") {
 				g.HasDate = true
 				// years 1..9999
@@ -281,7 +284,7 @@ func HSpecGen(minRefs, maxRefs int) *rapid.Generator[HSpec] {
 				g.ZoneMin = rapid.SampledFrom([]int{0, 0, 60, -60, 330, -570, 840, -720, 1}).Draw(t, "zone")
 			}
 			if rapid.Bool().Draw(t, "pi?") {
-				g.PI = rapid.IntRange(-(1 << 31), 1<<31-1).Draw(t, "pi")
+				g.PI = rapid.IntRange(-(1<<31), 1<<31-1).Draw(t, "pi")
 			}
 			g.Tags = userTags(t, "rgtags", 2)
 			s.RGs = append(s.RGs, g)
